@@ -6,12 +6,14 @@ MCRoundOpts == {o \in [lg : {"day", "hour", "minute", "second", "nanosecond"}, s
                   /\ (o.sm = "hour" => o.inc \in {1, 2}) /\ (o.sm = "day" => o.inc \in {1, 2, 5})
                   /\ (o.sm = "millisecond" => o.inc \in {1, 2, 5}) /\ (o.sm = "nanosecond" => o.inc \in {1, 2, 5})}
 Cls == CASE last.op = "new" -> (IF SignUniform(last.d) THEN "uniform" ELSE "mixed") \o (IF last.out.kind = "ok" THEN "/valid" ELSE "/invalid")
+         [] last.op = "fromPartial" -> (IF DOMAIN last.p = {} THEN "empty" ELSE IF DOMAIN last.p = DurKeySet THEN "full" ELSE "some") \o "/" \o last.out.kind
          [] last.op \in {"add", "subtract", "compare"} -> (IF HasCalendarUnits(last.a) \/ HasCalendarUnits(last.b) THEN "calendar" ELSE "time") \o "/" \o last.out.kind
          [] last.op = "round" -> last.o.sm \o "/" \o last.o.lg \o "/" \o last.out.kind
          [] last.op = "total" -> last.u \o "/" \o last.out.kind
          [] OTHER -> "-"
 CaseOf ==
   CASE last.op = "new" -> [op |-> "Duration.new", cls |-> Cls, args |-> [dur |-> last.d], out |-> last.out]
+    [] last.op = "fromPartial" -> [op |-> "Duration.fromPartial", cls |-> Cls, args |-> [p |-> last.p], out |-> last.out]
     [] last.op \in {"negated", "abs", "sign"} -> [op |-> "Duration." \o last.op, cls |-> Cls, args |-> [recv |-> last.a], out |-> last.out]
     [] last.op \in {"add", "subtract", "compare"} -> [op |-> "Duration." \o last.op, cls |-> Cls, args |-> [recv |-> last.a, other |-> last.b], out |-> last.out]
     [] last.op = "round" -> [op |-> "Duration.round", cls |-> Cls, args |-> [recv |-> last.a, st |-> [largest |-> last.o.lg, smallest |-> last.o.sm, inc |-> last.o.inc, mode |-> last.o.mode]], out |-> last.out]
